@@ -288,6 +288,11 @@ def generate(rng, prefix="", n_funcs=None, with_main=True, rich=True):
         funcs.append(it)
         i += 1
 
+    # a function *head*: declared here, resolved at link time (libc's abs)
+    if rich and not px and rng.random() < 0.35:
+        P.add(Item("abs", "fn", "extern fn abs(x: i32) -> i32;\n", "extern fn abs(x: i32) -> i32;", ("i_i",)))
+        funcs.append(P.by_name["abs"])
+
     # ---- main ------------------------------------------------------------
     if with_main:
         lines = ["var acc: i32 = %d;" % rng.randint(0, 9)]
@@ -561,12 +566,17 @@ def perturb(split, rng, other=None):
     P = split.program
     k = split.k
     # same name for private items of the same kind in different modules
-    for kind, newname in (("fn", "helper"), ("const", "LIMIT"), ("struct", "Node")):
+    for kind, newname in (("fn", "helper"), ("const", "LIMIT"), ("table", "TABLE"), ("struct", "Node")):
         if rng.random() < 0.5:
             per_mod = {}
             for it in P.items:
-                if it.kind == kind and it.name not in split.pub and it.name != "main":
+                want = "const" if kind == "table" else kind
+                if it.kind == want and it.name not in split.pub and it.name != "main":
                     if kind == "const" and not it.body.startswith("const %s: i32" % it.name):
+                        continue
+                    if kind == "table" and not it.body.startswith("const %s: [" % it.name):
+                        continue
+                    if kind == "fn" and it.body.rstrip().endswith(";"):
                         continue
                     per_mod.setdefault(split.assign[it.name], []).append(it.name)
             mods = [m for m in per_mod]
